@@ -35,10 +35,17 @@ func c17Body(t *testing.T, s *sim.Scn, o *sim.Outcome) {
 	bt := time.Duration(max64(10, s.Cfg["bt"])) * time.Millisecond
 	lz := time.Duration(max64(2, s.Cfg["lz"])) * time.Millisecond
 	lazy := s.Cfg["lazy"] == 1
+	btZero := s.Cfg["btzero"] == 1
+	if btZero {
+		bt = time.Second // block_time is configured as 0s: the node's default applies
+	}
 	run := time.Duration(max64(100, s.Cfg["run"])) * time.Millisecond
+	if btZero && run < 12*time.Second {
+		run = 12 * time.Second
+	}
 	w := sim.NewWorld(t, "c17", 1)
 	defer w.Close()
-	n := w.AddNode(sim.NodeCfg{Name: "seq", Aggregator: true, LazyMode: lazy, BlockTime: bt, LazyInterval: lz})
+	n := w.AddNode(sim.NodeCfg{Name: "seq", Aggregator: true, LazyMode: lazy, BlockTime: bt, BlockTimeZero: btZero, LazyInterval: lz})
 	if err := n.StartNode(); err != nil {
 		o.Fail("C17/cannot-start", "", -1, err.Error(), "starts")
 		return
@@ -228,6 +235,14 @@ func c17Gen(r *rand.Rand, tier string) *sim.Scn {
 	s := &sim.Scn{Cfg: map[string]int64{"lazy": 1, "bt": bt, "lz": lz, "run": bt * int64(blocks)}}
 	if r.IntN(4) == 0 {
 		s.Cfg["lazy"] = 0
+	}
+	if r.IntN(12) == 0 {
+		// block_time configured as 0s (the 1 s default applies), idle interval below or above it
+		bt = 1000
+		s.Cfg["btzero"], s.Cfg["bt"] = 1, bt
+		s.Cfg["lz"] = []int64{100, 250, 900, 1000, 3000}[r.IntN(5)]
+		blocks = 12 + r.IntN(30)
+		s.Cfg["run"] = bt * int64(blocks)
 	}
 	pSlow := r.IntN(60)
 	for i := 0; i < blocks; i++ {
